@@ -4,7 +4,7 @@
 import Mathlib.Tactic.Ring
 import Mathlib.Tactic.Linarith
 import MinLex.Model.Parse
-namespace MinLex
+namespace MinLex.ParseNum
 
 -- ---------------------------------------------------------------- digits
 /-- all bytes of a list are ASCII digits -/
@@ -541,8 +541,11 @@ theorem take19_bounds {sig : List UInt8} (hd : AllDigits sig) (hl : 19 < sig.len
     rw [List.length_take, Nat.min_eq_left (by omega)] at this
     exact this
 
-theorem Valid.allInt {int frac : List UInt8} {e : Int} (h : Valid int frac e) : AllDigits int := h.1
-theorem Valid.allFrac {int frac : List UInt8} {e : Int} (h : Valid int frac e) : AllDigits frac :=
+instance (int frac : List UInt8) (e : Int) : Decidable (Valid int frac e) := by
+  unfold Valid; infer_instance
+
+theorem valid_allInt {int frac : List UInt8} {e : Int} (h : Valid int frac e) : AllDigits int := h.1
+theorem valid_allFrac {int frac : List UInt8} {e : Int} (h : Valid int frac e) : AllDigits frac :=
   h.2.1
 
 theorem parseNumber_few_aux {int frac : List UInt8} {e : Int} (h : Valid int frac e)
@@ -550,9 +553,9 @@ theorem parseNumber_few_aux {int frac : List UInt8} {e : Int} (h : Valid int fra
     parseNumber int frac e = ⟨satI32 (e - frac.length), ofDigits (sigDigits int frac), false⟩ ∧
     parseNumberTraps int frac e = false := by
   unfold parseNumber parseNumberTraps
-  rw [parseNumberFastTraps_valid h.allInt h.allFrac]
+  rw [parseNumberFastTraps_valid (valid_allInt h) (valid_allFrac h)]
   by_cases hl : int.length + frac.length ≤ 19
-  · rw [parseNumberFast_short h.allInt h.allFrac hl, ofDigits_sigDigits]
+  · rw [parseNumberFast_short (valid_allInt h) (valid_allFrac h) hl, ofDigits_sigDigits]
     simp
   · rw [parseNumberFast_long hl, parseNumberSlow_few h hs]
     simp
@@ -563,7 +566,7 @@ theorem parseNumber_many_aux {int frac : List UInt8} {e : Int} (h : Valid int fr
       ⟨satI32 (trueExp int frac e), ofDigits ((sigDigits int frac).take 19), true⟩ ∧
     parseNumberTraps int frac e = false := by
   unfold parseNumber parseNumberTraps
-  rw [parseNumberFastTraps_valid h.allInt h.allFrac]
+  rw [parseNumberFastTraps_valid (valid_allInt h) (valid_allFrac h)]
   have hl : ¬ int.length + frac.length ≤ 19 := by
     have := sigDigits_length_le int frac; omega
   rw [parseNumberFast_long hl, parseNumberSlow_many h hs]
@@ -652,4 +655,368 @@ theorem ofDec_ge_pow {M a : Nat} {x y : Int} (hM : 10 ^ a ≤ M) (h : y ≤ x + 
   rw [pow_add] at h2
   omega
 
-end MinLex
+-- ---------------------------------------------------------------- the value denoted by the result
+theorem trueExp_few {int frac : List UInt8} {e : Int} (hs : (sigDigits int frac).length ≤ 19) :
+    trueExp int frac e = e - frac.length := by
+  unfold trueExp; omega
+
+/-- one closed form for both cases -/
+theorem parseNumber_closed {int frac : List UInt8} {e : Int} (h : Valid int frac e) :
+    parseNumber int frac e =
+      ⟨satI32 (trueExp int frac e), ofDigits ((sigDigits int frac).take 19),
+        decide (19 < (sigDigits int frac).length)⟩ := by
+  by_cases hs : (sigDigits int frac).length ≤ 19
+  · rw [(parseNumber_few_aux h hs).1, trueExp_few hs, List.take_of_length_le hs]
+    have : ¬ 19 < (sigDigits int frac).length := by omega
+    simp [this]
+  · have hs' : 19 < (sigDigits int frac).length := by omega
+    rw [(parseNumber_many_aux h hs').1]
+    simp [hs']
+
+theorem ofDigits_split (sig : List UInt8) (n : Nat) :
+    ofDigits sig = ofDigits (sig.take n) * 10 ^ (sig.length - n) + ofDigits (sig.drop n) := by
+  conv => lhs; rw [← List.take_append_drop n sig]
+  rw [ofDigits_append, List.length_drop]
+
+theorem value_bracket {sig : List UInt8} (hd : AllDigits sig) (n : Nat) (y : Int) :
+    Q.le (ofDec (ofDigits (sig.take n)) (y + ((sig.length - n : Nat) : Int))) (ofDec (ofDigits sig) y) ∧
+    Q.lt (ofDec (ofDigits sig) y) (ofDec (ofDigits (sig.take n) + 1) (y + ((sig.length - n : Nat) : Int))) ∧
+    (Q.eqv (ofDec (ofDigits (sig.take n)) (y + ((sig.length - n : Nat) : Int))) (ofDec (ofDigits sig) y)
+      ↔ ofDigits (sig.drop n) = 0) := by
+  have hR := ofDigits_lt (AllDigits.drop n hd)
+  rw [List.length_drop] at hR
+  have hsplit := ofDigits_split sig n
+  generalize ofDigits (sig.take n) = M at *
+  generalize ofDigits (sig.drop n) = R at *
+  generalize ofDigits sig = D at *
+  generalize sig.length - n = k at *
+  simp only [ofDec_eq_scaled]
+  have hx : 0 ≤ y + (k : Int) + ((-y).toNat : Nat) := by omega
+  have hy : 0 ≤ y + ((-y).toNat : Nat) := by omega
+  rw [scaled_le_iff (by omega) M D (-y).toNat hx hy, scaled_lt_iff (by omega) D (M + 1) (-y).toNat hy hx,
+    scaled_eqv_iff (by omega) M D (-y).toNat hx hy]
+  have e1 : (y + (k : Int) + ((-y).toNat : Nat)).toNat = k + (y + ((-y).toNat : Nat)).toNat := by omega
+  rw [e1, pow_add]
+  have hP : 0 < 10 ^ (y + ((-y).toNat : Nat)).toNat := Nat.pow_pos (by omega)
+  generalize 10 ^ (y + ((-y).toNat : Nat)).toNat = P at *
+  subst hsplit
+  refine ⟨?_, ?_, ?_⟩
+  · nlinarith [Nat.zero_le (R * P)]
+  · have : (M * 10 ^ k + R) * P < (M + 1) * 10 ^ k * P := by
+      apply (Nat.mul_lt_mul_right hP).mpr; nlinarith
+    calc (M * 10 ^ k + R) * P < (M + 1) * 10 ^ k * P := this
+      _ = (M + 1) * (10 ^ k * P) := by ring
+  · rw [← Nat.mul_assoc, Nat.mul_right_cancel_iff hP]
+    omega
+
+theorem ofDigits_eq_zero_iff {ds : List UInt8} (hd : AllDigits ds) :
+    ofDigits ds = 0 ↔ ∀ c ∈ ds, c = 48 := by
+  induction ds with
+  | nil => simp [ofDigits_nil]
+  | cons c ds ih =>
+    rw [AllDigits.cons_iff] at hd
+    rw [ofDigits_cons]
+    have hp : 0 < 10 ^ ds.length := Nat.pow_pos (by omega)
+    constructor
+    · intro h
+      have h1 : digitVal c * 10 ^ ds.length = 0 := by omega
+      have h2 : ofDigits ds = 0 := by omega
+      have h3 : digitVal c = 0 := by
+        rcases Nat.mul_eq_zero.mp h1 with h | h
+        · exact h
+        · omega
+      intro x hx
+      rcases List.mem_cons.mp hx with hx | hx
+      · rw [hx]; exact (digitVal_eq_zero_iff hd.1).mp h3
+      · exact (ih hd.2).mp h2 x hx
+    · intro h
+      have h1 : digitVal c = 0 := (digitVal_eq_zero_iff hd.1).mpr (h c (List.mem_cons_self))
+      have h2 : ofDigits ds = 0 := (ih hd.2).mpr (fun x hx => h x (List.mem_cons_of_mem _ hx))
+      rw [h1, h2]; simp
+
+-- ---------------------------------------------------------------- exact product / quotient
+theorem ofDyadic_den_pos (m : Nat) (j : Int) : 0 < (ofDyadic m j).den :=
+  scaled_den_pos (b := 2) (by omega) m j
+
+theorem ofDyadic_zero_num (j : Int) : (ofDyadic 0 j).num = 0 := by
+  unfold ofDyadic; split <;> simp
+
+/-- `mulQ` is the exact product of the two dyadic values -/
+theorem mulQ_spec (a b : Nat × Int) :
+    (mulQ a b).num * ((ofDyadic a.1 a.2).den * (ofDyadic b.1 b.2).den) =
+      (ofDyadic a.1 a.2).num * (ofDyadic b.1 b.2).num * (mulQ a b).den := by
+  obtain ⟨a1, a2⟩ := a
+  obtain ⟨b1, b2⟩ := b
+  unfold mulQ
+  simp only [ofDyadic_eq_scaled]
+  have hP := scaled_spec (b := 2) (a1 * b1) (j := a2 + b2) ((-a2).toNat + (-b2).toNat) (by omega)
+  have hA := scaled_spec (b := 2) a1 (j := a2) (-a2).toNat (by omega)
+  have hB := scaled_spec (b := 2) b1 (j := b2) (-b2).toNat (by omega)
+  have hs : (a2 + b2 + (((-a2).toNat + (-b2).toNat : Nat) : Int)).toNat =
+      (a2 + ((-a2).toNat : Nat)).toNat + (b2 + ((-b2).toNat : Nat)).toNat := by omega
+  rw [hs] at hP
+  generalize (a2 + ((-a2).toNat : Nat)).toNat = s1 at *
+  generalize (b2 + ((-b2).toNat : Nat)).toNat = s2 at *
+  generalize (-a2).toNat = N1 at *
+  generalize (-b2).toNat = N2 at *
+  generalize scaled 2 (a1 * b1) (a2 + b2) = P at *
+  generalize scaled 2 a1 a2 = A at *
+  generalize scaled 2 b1 b2 = B at *
+  apply Nat.eq_of_mul_eq_mul_right (Nat.pow_pos (by omega) : 0 < 2 ^ (N1 + N2))
+  calc P.num * (A.den * B.den) * 2 ^ (N1 + N2)
+      = (P.num * 2 ^ (N1 + N2)) * (A.den * B.den) := by ring
+    _ = (a1 * b1 * 2 ^ (s1 + s2) * P.den) * (A.den * B.den) := by rw [hP]
+    _ = (a1 * 2 ^ s1 * A.den) * (b1 * 2 ^ s2 * B.den) * P.den := by rw [pow_add]; ring
+    _ = (A.num * 2 ^ N1) * (B.num * 2 ^ N2) * P.den := by rw [hA, hB]
+    _ = A.num * B.num * P.den * 2 ^ (N1 + N2) := by rw [pow_add]; ring
+
+/-- `divQ` is the exact quotient of the two dyadic values -/
+theorem divQ_spec (a b : Nat × Int) :
+    (divQ a b).num * ((ofDyadic b.1 b.2).num * (ofDyadic a.1 a.2).den) =
+      (ofDyadic a.1 a.2).num * (ofDyadic b.1 b.2).den * (divQ a b).den := by
+  obtain ⟨a1, a2⟩ := a
+  obtain ⟨b1, b2⟩ := b
+  simp only [ofDyadic_eq_scaled]
+  have hA := scaled_spec (b := 2) a1 (j := a2) ((-a2).toNat + (-b2).toNat) (by omega)
+  have hB := scaled_spec (b := 2) b1 (j := b2) ((-a2).toNat + (-b2).toNat) (by omega)
+  generalize hN : (-a2).toNat + (-b2).toNat = N at *
+  apply Nat.eq_of_mul_eq_mul_right (Nat.pow_pos (by omega) : 0 < 2 ^ N)
+  unfold divQ
+  simp only
+  split
+  · rename_i hj
+    have hs : (a2 + (N : Int)).toNat = (a2 - b2).toNat + (b2 + (N : Int)).toNat := by omega
+    rw [hs, pow_add] at hA
+    generalize (a2 - b2).toNat = j at *
+    generalize (b2 + (N : Int)).toNat = sb at *
+    generalize scaled 2 a1 a2 = A at *
+    generalize scaled 2 b1 b2 = B at *
+    simp only
+    calc a1 * 2 ^ j * (B.num * A.den) * 2 ^ N
+        = a1 * 2 ^ j * A.den * (B.num * 2 ^ N) := by ring
+      _ = a1 * 2 ^ j * A.den * (b1 * 2 ^ sb * B.den) := by rw [hB]
+      _ = (a1 * (2 ^ j * 2 ^ sb) * A.den) * B.den * b1 := by ring
+      _ = (A.num * 2 ^ N) * B.den * b1 := by rw [hA]
+      _ = A.num * B.den * b1 * 2 ^ N := by ring
+  · rename_i hj
+    have hs : (b2 + (N : Int)).toNat = (-(a2 - b2)).toNat + (a2 + (N : Int)).toNat := by omega
+    rw [hs, pow_add] at hB
+    generalize (-(a2 - b2)).toNat = j at *
+    generalize (a2 + (N : Int)).toNat = sa at *
+    generalize scaled 2 a1 a2 = A at *
+    generalize scaled 2 b1 b2 = B at *
+    simp only
+    calc a1 * (B.num * A.den) * 2 ^ N
+        = a1 * A.den * (B.num * 2 ^ N) := by ring
+      _ = a1 * A.den * (b1 * (2 ^ j * 2 ^ sa) * B.den) := by rw [hB]
+      _ = (a1 * 2 ^ sa * A.den) * B.den * (b1 * 2 ^ j) := by ring
+      _ = (A.num * 2 ^ N) * B.den * (b1 * 2 ^ j) := by rw [hA]
+      _ = A.num * B.den * (b1 * 2 ^ j) * 2 ^ N := by ring
+
+theorem mulQ_exact {f : Fmt} {a b x y : Nat} (ha : Q.eqv (decodeQ f a) ⟨x, 1⟩)
+    (hb : Q.eqv (decodeQ f b) ⟨y, 1⟩) :
+    Q.eqv (mulQ (decode f a) (decode f b)) ⟨x * y, 1⟩ := by
+  have hs := mulQ_spec (decode f a) (decode f b)
+  unfold Q.eqv decodeQ at *
+  simp only [Nat.mul_one] at *
+  have dA := ofDyadic_den_pos (decode f a).1 (decode f a).2
+  have dB := ofDyadic_den_pos (decode f b).1 (decode f b).2
+  rw [ha, hb] at hs
+  apply Nat.eq_of_mul_eq_mul_right (Nat.mul_pos dA dB)
+  rw [hs]; ring
+
+theorem divQ_exact {f : Fmt} {a b x y : Nat} (ha : Q.eqv (decodeQ f a) ⟨x, 1⟩)
+    (hb : Q.eqv (decodeQ f b) ⟨y, 1⟩) :
+    Q.eqv (divQ (decode f a) (decode f b)) ⟨x, y⟩ := by
+  have hs := divQ_spec (decode f a) (decode f b)
+  unfold Q.eqv decodeQ at *
+  simp only [Nat.mul_one] at *
+  have dA := ofDyadic_den_pos (decode f a).1 (decode f a).2
+  have dB := ofDyadic_den_pos (decode f b).1 (decode f b).2
+  rw [ha, hb] at hs
+  apply Nat.eq_of_mul_eq_mul_right (Nat.mul_pos dA dB)
+  calc (divQ (decode f a) (decode f b)).num * y *
+        ((ofDyadic (decode f a).1 (decode f a).2).den * (ofDyadic (decode f b).1 (decode f b).2).den)
+      = (divQ (decode f a) (decode f b)).num *
+        (y * (ofDyadic (decode f b).1 (decode f b).2).den * (ofDyadic (decode f a).1 (decode f a).2).den) := by
+        ring
+    _ = _ := by rw [hs]; ring
+
+theorem decode_ne_zero_of_eqv {f : Fmt} {b y : Nat} (hy : 0 < y)
+    (hb : Q.eqv (decodeQ f b) ⟨y, 1⟩) : (decode f b).1 ≠ 0 := by
+  intro h0
+  unfold Q.eqv decodeQ at hb
+  simp only [h0, ofDyadic_zero_num] at hb
+  have dB := ofDyadic_den_pos 0 (decode f b).2
+  have := Nat.mul_pos hy dB
+  omega
+
+theorem mulQ_den_pos (a b : Nat × Int) : 0 < (mulQ a b).den := ofDyadic_den_pos _ _
+
+theorem divQ_den_pos (a b : Nat × Int) (hb : b.1 ≠ 0) : 0 < (divQ a b).den := by
+  unfold divQ
+  simp only
+  split
+  · exact Nat.pos_of_ne_zero hb
+  · exact Nat.mul_pos (Nat.pos_of_ne_zero hb) (Nat.pow_pos (by omega))
+
+theorem ofDec_den_pos (m : Nat) (j : Int) : 0 < (ofDec m j).den :=
+  scaled_den_pos (b := 10) (by omega) m j
+
+-- ---------------------------------------------------------------- `u64 as float` is exact on small integers
+theorem flog2_nat {m : Nat} (hm : m ≠ 0) : flog2 m 1 = (Nat.log2 m : Int) := by
+  have h1 : Nat.log2 1 = 0 := by decide
+  have hlo := Nat.log2_self_le hm
+  have hhi := Nat.lt_log2_self (n := m)
+  unfold flog2
+  simp only [h1, Nat.cast_zero, sub_zero]
+  have g1 : geP2 m 1 ((Nat.log2 m : Int) + 1) = false := by
+    unfold geP2
+    rw [if_pos (by omega)]
+    have : ((Nat.log2 m : Int) + 1).toNat = Nat.log2 m + 1 := by omega
+    rw [this]; simp only [Nat.one_mul, ge_iff_le, decide_eq_false_iff_not]; omega
+  have g2 : geP2 m 1 (Nat.log2 m : Int) = true := by
+    unfold geP2
+    rw [if_pos (by omega)]
+    have : ((Nat.log2 m : Int)).toNat = Nat.log2 m := by omega
+    rw [this]; simp only [Nat.one_mul, ge_iff_le, decide_eq_true_eq]; exact hlo
+  rw [g1, g2]; simp
+
+theorem rhe_one (A : Nat) : rhe A 1 = A := by
+  unfold rhe
+  simp only [Nat.div_one, Nat.mod_one]
+  rw [if_neg (by omega)]
+
+theorem rhe_two_mul (X : Nat) : rhe (2 * X) 2 = X := by
+  unfold rhe
+  have h1 : 2 * X / 2 = X := by omega
+  have h2 : 2 * X % 2 = 0 := by omega
+  simp only [h1, h2]
+  rw [if_neg (by omega)]
+
+theorem decode_assemble (f : Fmt) {mant : Nat} (E : Nat) (h1 : 2 ^ f.mbits ≤ mant)
+    (h2 : mant < 2 ^ (f.mbits + 1)) :
+    decode f (mant + E * 2 ^ f.mbits) = (mant, f.kmin + E) := by
+  unfold decode
+  rw [pow_succ] at h2
+  have hX : 0 < 2 ^ f.mbits := Nat.pow_pos (by omega)
+  have hd : mant / 2 ^ f.mbits = 1 := Nat.div_eq_of_lt_le (by omega) (by omega)
+  have hm : mant % 2 ^ f.mbits = mant - 2 ^ f.mbits := by
+    have := Nat.div_add_mod mant (2 ^ f.mbits)
+    rw [hd] at this; omega
+  simp only [Nat.add_mul_div_right _ _ hX, Nat.add_mul_mod_self_right, hd, hm]
+  rw [if_neg (by omega)]
+  congr 1
+  · omega
+  · push_cast; omega
+
+/-- assembling the result of `rne` on an integer whose ulp exponent is `L - mbits` -/
+theorem rne_nat_assemble (f : Fmt) (hE : f.mbits + 2 ≤ 2 ^ (f.ebits - 1)) {m L mant : Nat}
+    (hm : m ≠ 0) (hL : L ≤ f.mbits + 1)
+    (hk : ulpExp f ⟨m, 1⟩ = (L : Int) - f.mbits)
+    (hmant : rhe (scaleP2 ⟨m, 1⟩ ((L : Int) - f.mbits)).1 (scaleP2 ⟨m, 1⟩ ((L : Int) - f.mbits)).2 = mant)
+    (h1 : 2 ^ f.mbits ≤ mant) (h2 : mant < 2 ^ (f.mbits + 1)) :
+    decode f (rne f ⟨m, 1⟩) = (mant, (L : Int) - f.mbits) := by
+  unfold rne
+  rw [if_neg hm]
+  simp only [hk, hmant]
+  have hkmin : f.kmin = 2 - ((2 ^ (f.ebits - 1) : Nat) : Int) - f.mbits := by
+    unfold Fmt.kmin; push_cast; rfl
+  generalize hP : 2 ^ (f.ebits - 1) = P at *
+  have heb : f.ebits = (f.ebits - 1) + 1 := by
+    rcases Nat.eq_zero_or_pos f.ebits with h0 | h0
+    · rw [h0] at hP; simp at hP; omega
+    · omega
+  have hinf : f.infBits = (2 * P - 1) * 2 ^ f.mbits := by
+    have e2 : 2 ^ f.ebits = 2 ^ (f.ebits - 1 + 1) := by rw [← heb]
+    unfold Fmt.infBits; rw [e2, pow_succ, hP, Nat.mul_comm P 2]
+  have hEq : ((L : Int) - f.mbits - f.kmin).toNat = L + P - 2 := by omega
+  rw [hEq, hinf]
+  have hX : 0 < 2 ^ f.mbits := Nat.pow_pos (by omega)
+  rw [pow_succ] at h2
+  have hle : mant + (L + P - 2) * 2 ^ f.mbits ≤ (2 * P - 1) * 2 ^ f.mbits := by
+    have e1 : 2 * P - 1 = (L + P - 2) + 2 + (P - L - 1) := by omega
+    rw [e1, Nat.add_mul, Nat.add_mul]
+    have := Nat.zero_le ((P - L - 1) * 2 ^ f.mbits)
+    omega
+  rw [Nat.min_eq_left hle, decode_assemble f _ h1 (by rw [pow_succ]; exact h2), hkmin]
+  congr 1
+  omega
+
+theorem ulpExp_nat (f : Fmt) (hE : f.mbits + 2 ≤ 2 ^ (f.ebits - 1)) {m : Nat} (hm : m ≠ 0) :
+    ulpExp f ⟨m, 1⟩ = (Nat.log2 m : Int) - f.mbits := by
+  unfold ulpExp
+  simp only [flog2_nat hm]
+  have hkmin : f.kmin = 2 - ((2 ^ (f.ebits - 1) : Nat) : Int) - f.mbits := by
+    unfold Fmt.kmin; push_cast; rfl
+  rw [hkmin]
+  generalize 2 ^ (f.ebits - 1) = P at *
+  omega
+
+/-- `rne` of an integer `m ≤ 2^(mbits+1)` decodes to exactly `m` -/
+theorem rne_nat_exact (f : Fmt) (hE : f.mbits + 2 ≤ 2 ^ (f.ebits - 1)) {m : Nat}
+    (hm : m ≤ 2 ^ (f.mbits + 1)) : Q.eqv (decodeQ f (rne f ⟨m, 1⟩)) ⟨m, 1⟩ := by
+  by_cases h0 : m = 0
+  · subst h0
+    have : rne f ⟨0, 1⟩ = 0 := by unfold rne; simp
+    rw [this]
+    unfold decodeQ decode
+    simp only [Nat.zero_div, Nat.zero_mod, if_true]
+    unfold Q.eqv
+    rw [ofDyadic_zero_num]; simp
+  · have hlo := Nat.log2_self_le h0
+    have hhi := Nat.lt_log2_self (n := m)
+    have hL : Nat.log2 m ≤ f.mbits + 1 := by
+      have : 2 ^ Nat.log2 m ≤ 2 ^ (f.mbits + 1) := Nat.le_trans hlo hm
+      exact (Nat.pow_le_pow_iff_right (by omega)).mp this
+    have hk := ulpExp_nat f hE h0
+    generalize Nat.log2 m = L at *
+    unfold decodeQ
+    by_cases hc : L < f.mbits
+    · -- shift left
+      have hs : scaleP2 ⟨m, 1⟩ ((L : Int) - f.mbits) = (m * 2 ^ (f.mbits - L), 1) := by
+        unfold scaleP2
+        rw [if_neg (by omega)]
+        have : (-((L : Int) - f.mbits)).toNat = f.mbits - L := by omega
+        rw [this]
+      have hsplit : f.mbits = L + (f.mbits - L) := by omega
+      have e1 : 2 ^ f.mbits = 2 ^ L * 2 ^ (f.mbits - L) := by rw [← pow_add, ← hsplit]
+      have hY : 0 < 2 ^ (f.mbits - L) := Nat.pow_pos (by omega)
+      rw [rne_nat_assemble f hE (mant := m * 2 ^ (f.mbits - L)) h0 hL hk (by rw [hs]; exact rhe_one _)
+        (by rw [e1]; exact Nat.mul_le_mul_right _ hlo)
+        (by rw [pow_succ, e1, Nat.mul_right_comm, ← pow_succ]
+            exact (Nat.mul_lt_mul_right hY).mpr hhi)]
+      unfold ofDyadic Q.eqv
+      simp only
+      rw [if_neg (by omega)]
+      have : (-((L : Int) - f.mbits)).toNat = f.mbits - L := by omega
+      simp only [this, Nat.mul_one]
+    · by_cases hc2 : L = f.mbits
+      · have ht : ((L : Int) - f.mbits).toNat = 0 := by omega
+        have hs : scaleP2 ⟨m, 1⟩ ((L : Int) - f.mbits) = (m, 1) := by
+          unfold scaleP2
+          rw [if_pos (by omega), ht]
+          simp
+        rw [hc2] at hlo hhi
+        rw [rne_nat_assemble f hE (mant := m) h0 hL hk (by rw [hs]; exact rhe_one _) hlo hhi]
+        unfold ofDyadic Q.eqv
+        simp only
+        rw [if_pos (by omega)]
+        simp only [ht, pow_zero, Nat.mul_one]
+      · have hL1 : L = f.mbits + 1 := by omega
+        rw [hL1] at hlo
+        have hmeq : m = 2 ^ (f.mbits + 1) := Nat.le_antisymm hm hlo
+        have ht : ((L : Int) - f.mbits).toNat = 1 := by omega
+        have hs : scaleP2 ⟨m, 1⟩ ((L : Int) - f.mbits) = (2 * 2 ^ f.mbits, 2) := by
+          unfold scaleP2
+          rw [if_pos (by omega), ht, hmeq, pow_succ]
+          simp only [pow_one, Nat.one_mul, Prod.mk.injEq, and_true]
+          ring
+        rw [rne_nat_assemble f hE (mant := 2 ^ f.mbits) h0 hL hk (by rw [hs]; exact rhe_two_mul _)
+          (Nat.le_refl _) (by rw [pow_succ]; have := Nat.pow_pos (a := 2) (n := f.mbits) (by omega); omega)]
+        unfold ofDyadic Q.eqv
+        simp only
+        rw [if_pos (by omega)]
+        simp only [ht, Nat.mul_one, hmeq, pow_succ, pow_zero, Nat.one_mul]
+
+end MinLex.ParseNum
